@@ -55,6 +55,16 @@ def netOutflow (shape : List Nat) (h : List Rat) (U : Nat → Rat) (idx : List N
 
 def massEntry (h : List Rat) (i j : Nat) : Rat := if i = j then vol h else 0
 
+/-- which `FVMass(grid, mode, lumping)` calls succeed: `"cells"` always (lumping is ignored), `"faces"` only lumped
+(`NotImplementedError` otherwise), any other mode leaves `mass_matrix` unbound (`UnboundLocalError`) -/
+inductive MassMode | cells | faces | other
+  deriving DecidableEq, Repr
+def massGuard (mode : MassMode) (lumping : Bool) : Except Err Unit :=
+  match mode with
+  | .cells => .ok ()
+  | .faces => if lumping then .ok () else .error .notImpl
+  | .other => .error .unbound
+
 /-! ### `face_to_cell(grid, U, pt)[idx, a]` : shifted-slice accumulation
 `cell_flux[:-1 along a, a] += pt[a]·U_a ; cell_flux[1: along a, a] += (1-pt[a])·U_a` -/
 
@@ -75,6 +85,11 @@ def faceToCellTable (shape : List Nat) (U : Nat → Rat) (pt : List Rat) (a : Na
 
 inductive AvgMode | arithmetic | harmonic
   deriving DecidableEq, Repr
+
+/-- the `mode` argument of `cell_to_face_average`: exactly the two documented spellings, anything else `ValueError` -/
+def avgModeOf (arith harm : Bool) : Except Err AvgMode :=
+  if arith then .ok .arithmetic else if harm then .ok .harmonic else .error .value
+
 
 /-- `scipy.stats.hmean` of two numbers: `NaN` (`none`) as soon as one is negative, `0` as soon as one is `0`,
 `2/(1/x + 1/y)` otherwise -/
